@@ -27,6 +27,7 @@ struct H {
     std::map<int, int> in_ctor;                          // key -> constructors running
     std::map<Obj*, uint64_t> last_release;               // per OBJECT (an expired object may still await deletion when a new one of its key is already in use)
     std::map<int, uint64_t> last_failure;                // photon::now
+    std::map<int, int> fail_in_flight;                   // failing constructions whose acquire has not returned yet
     std::map<int, int> recycling;                        // key -> recycling releases in progress
     std::set<Obj*> live;
     long serial = 0, constructed = 0, destroyed = 0, expired = 0;
@@ -61,7 +62,8 @@ struct H {
         C.st[id].phase = "acquire"; C.st[id].phase_arg = key;
         bool overlapped = !holders[key].empty() || in_ctor[key] > 0;
         uint64_t fail_before = last_failure.count(key) ? last_failure[key] : 0;
-        bool ctor_ran = false;
+        bool ctor_ran = false, my_fail = false;
+        uint64_t t_acq = photon::now;       // the library decides about the cooldown somewhere between this moment and the return
         Obj* p = cache->acquire(key, [&]() -> Obj* {
             ctor_ran = true;
             if (++in_ctor[key] > 1) ctl.violation("two constructors running at once for key " + std::to_string(key));
@@ -70,16 +72,19 @@ struct H {
             else if (ctor_kind == 3) photon::thread_usleep(120);
             Obj* o = nullptr;
             if (ctor_kind != 1) { o = new Obj(key, ++serial); live.insert(o); constructed++; }
-            else last_failure[key] = photon::now;
+            else { last_failure[key] = photon::now; fail_in_flight[key]++; my_fail = true; }
             in_ctor[key]--;
             return o;
         }, (uint64_t)cooldown);
+        // the library stamps a failure after the constructor returned; until the failing acquire itself has returned here the
+        // failure counts as "just happened" (another vCPU or a clock jump can sit between the two time stamps)
+        if (my_fail) { fail_in_flight[key]--; last_failure[key] = photon::now; }
         if (!p) {
             if (ctor_ran && ctor_kind != 1) ctl.violation("acquire returned null although its constructor succeeded");
             if (!ctor_ran) {
                 // legal only inside the failure cooldown of an earlier failed construction, or when another
                 // acquirer's constructor failed while we were waiting for it
-                bool recent_failure = last_failure.count(key) && (cooldown > 0 ? photon::now <= last_failure[key] + (uint64_t)cooldown + 300 : last_failure[key] > fail_before || last_failure[key] + 300 >= photon::now);
+                bool recent_failure = fail_in_flight[key] > 0 || (last_failure.count(key) && (cooldown > 0 ? t_acq <= last_failure[key] + (uint64_t)cooldown + 300 : last_failure[key] > fail_before || last_failure[key] + 300 >= t_acq));
                 if (!recent_failure) ctl.violation("acquire returned null without running its constructor and without a recent failed construction (key " + std::to_string(key) + ")");
                 labels.insert("null_during_failure_cooldown");
             } else labels.insert("ctor_failed_reported");
